@@ -68,6 +68,15 @@ def run_case(ctx, case_seed, kind=None, prog=None, world_cls=World):
     prog = prog or gen_program(rng)
     if prog['outputs'] and case_seed % 4 == 1 and not directed:
         prog['extractor'] = 'ok_calls_output'    # user code that runs after the operation ended (the metadata extractor) uses an intercepted output too
+    if case_seed % 6 == 4 and not directed:
+        # data handler OBJECTS whose truth value is False (a handler that is also an - empty - registry of codecs)
+        for d in prog['inputs'] + prog['outputs']:
+            if d.get('handler') == 'wrap':
+                d['handler'] = 'wrap_falsy'
+        for d in prog['inputs'][:1]:
+            if d['kind'] in ('instance', 'static'):
+                d['handler'] = 'wrap_falsy'
+        ctx.count('programs_with_falsy_data_handler_objects')
     if case_seed % 5 == 2 and not directed:
         reuse_sent_objects(prog)
         # (without copy-on-interception the recording holds the very objects the service goes on modifying - that is what the flag is for)
